@@ -66,7 +66,8 @@ fn gen_case(s: &mut Src, max_depth: u32) -> Case {
     let placement = s.draw(4) as u8;
     // a deep chain now and then, to reach the supported nesting depth (parser MAX_DEPTH is 20, framing uses up to 2)
     let v = if s.alt(12, &["tree", "deep_chain"]) == 1 {
-        let d = 10 + s.draw(7);
+        // up to exactly the supported depth: the value's own nesting plus the level the placement adds (dictionary value / array element: 1)
+        let d = (10 + s.draw(11)).min(20 - if placement == 1 || placement == 2 { 1 } else { 0 });
         let mut v = gen_leaf(s);
         for i in 0..d { v = if i % 2 == 0 { V::Arr(vec![v]) } else { V::Dict(vec![("K".into(), v)]) }; }
         v
